@@ -35,6 +35,11 @@ inductive Cmd (S : Type) where
   | sumgrad (c : String) (parts : List String) | probe (v : String) | flags (v : String) | probekid (v : String) (i : Nat) | own (v : String)
   | log
   | gdupdate (lr : S) (vs : List String)
+  /-- a named optimizer object, used for several updates -/
+  | gd (g : String) (lr : S)
+  | gdstep (g : String) (vs : List String)
+  /-- the cost closures applied directly -/
+  | cost (w : String) (c : Cost) (output target : String)
   | dense (l : String) (inp out : Nat) (act : Act) (w b : List S)
   | convl (l : String) (f d r c sr sc : Nat) (act : Act) (w b : List S)
   | lfwd (w l a : String)
@@ -269,6 +274,21 @@ def exec (σ : State S) (c : Cmd S) : R (State S × Out S) :=
     let (σ1, hs') ← gdUpdate σ lr hs
     let σ2 := (vs.zip hs').foldl (fun (s : State S) p => s.bind p.1 p.2) σ1
     pure (σ2, .params (hs'.map (fun h => (σ2.tensorOf h, σ2.grad.getD h.node none))))
+  | .gd g lr => pure ({ σ with models := insert σ.models ("#gd:" ++ g) ⟨[], .mse, lr, none⟩ }, .ok)
+  | .gdstep g vs => do
+    match lookup σ.models ("#gd:" ++ g) with
+    | some mr =>
+      let hs ← mapR σ.get vs
+      let (σ1, hs') ← gdUpdate σ mr.lr hs
+      let σ2 := (vs.zip hs').foldl (fun (s : State S) p => s.bind p.1 p.2) σ1
+      pure (σ2, .params (hs'.map (fun h => (σ2.tensorOf h, σ2.grad.getD h.node none))))
+    | none => throw .modelGap
+  | .cost w c output target => do
+    let o ← σ.get output
+    let t ← σ.get target
+    bindShow w (match c with
+      | .mse => hMse σ o t
+      | .xent => hXent σ o t)
   | .dense l inp out act w b => do
     let wt ← Tensor.mk? [out, inp] w
     let bt ← Tensor.mk? [out] b
